@@ -148,3 +148,42 @@ def ns(seconds: float) -> int:
     if isinstance(seconds, int):
         return seconds * 1_000_000_000
     return int(seconds * 1_000_000_000)
+
+
+def repo_exception_sig(exc: BaseException, prefix: str = "exception") -> str | None:
+    """If `exc` was raised from repository code (innermost frame under REPO),
+    return a stable signature "exception/<Type>/<module>.<function>"; else None
+    (the exception is the harness's own fault and must propagate)."""
+    import traceback
+
+    from simkit import repo as _repo
+
+    tb = traceback.extract_tb(exc.__traceback__)
+    if not tb:
+        return None
+    inner = tb[-1]
+    if _repo.REPO in inner.filename and "/verif/" not in inner.filename:
+        mod = inner.filename.split("happysimulator/")[-1].replace("/", ".").removesuffix(".py")
+        return f"{prefix}/{type(exc).__name__}/{mod}.{inner.name}"
+    return None
+
+
+def run_sim(sim, monitor: "Monitor | None" = None):
+    """sim.run() with the kit's outcome classification.
+
+    Returns ("ok"|"budget"|"violation"|"exception", payload).  Repo exceptions
+    escaping sim.run() become a Violation-like payload; harness exceptions
+    propagate.
+    """
+    try:
+        summary = sim.run()
+        return "ok", summary
+    except Violation as v:
+        return "violation", v
+    except BudgetExceeded as b:
+        return "budget", b
+    except Exception as exc:  # noqa: BLE001
+        sig = repo_exception_sig(exc)
+        if sig is None:
+            raise
+        return "exception", Violation(sig, repr(exc))
